@@ -141,7 +141,12 @@ func checkC01(c C01Case, r *Rec) *Violation {
 		log.Reset()
 		ref4 := newRef()
 		rv4, rerr4 := ref4.Eval(c.Tree)
-		o4 := Safe(func() (eval.Value, error) { return eval.Eval(prefix+src, vals, eval.ExtendConf(cc)) })
+		// the one-shot helper gets a bindings map that also holds names the config does not know
+		vals4 := map[string]interface{}{"zz_unrelated_1": int64(900000), "zz_unrelated_2": "x", "zz_unrelated_3": true}
+		for k, v := range vals {
+			vals4[k] = v
+		}
+		o4 := Safe(func() (eval.Value, error) { return eval.Eval(prefix+src, vals4, eval.ExtendConf(cc)) })
 		if !Agrees(o4, rv4, rerr4) {
 			return Violf("C01: one-shot eval.Eval disagrees with the reference\n%s\nengine=%v\nreference=%s", describe(), o4, refString(rv4, rerr4))
 		}
